@@ -6,7 +6,9 @@ from . import _generic as g
 
 PROP = "C13"
 CORR = "vf.corr.c13"
-CLASSES = {"mock-groups-by-first-raw-tag": "F23", "mock-tag-case-variants-collide": "F23", "mock-asyncgen-nature": "F47", "protocol-async-dropped": "F47"}
+# F47 (classes `mock-asyncgen-nature`, `protocol-async-dropped`: a coroutine returning `AsyncIteratorResult`) is repaired: those classes
+# are still computed by the oracle, a recurrence is a violation
+CLASSES = {"mock-groups-by-first-raw-tag": "F23", "mock-tag-case-variants-collide": "F23"}
 
 
 def check(run, ctx) -> None:
